@@ -52,6 +52,8 @@ def generate(rng, i, tier):
                             for x in a["acts"] if a["op"] == "txn" else [a]:
                                 if rng.random() < pf:
                                     x["force"] = True
+                            if a["op"] == "txn" and rng.random() < 0.3:
+                                a["propagate"] = True
         return sc
     sc = lifecycle_common.scenario(rng, ID)
     st = sc["strategies"]
